@@ -7,7 +7,7 @@ claim("C19",
       "memory reachable from a parameter (E1), that every construct_array_contraction kernel returns a fresh array although the "
       "assembly multiplies it in place (E2), that nothing stores to module/class/closure state (E3), that process-wide error "
       "state is changed only through context managers or finally-paired calls on normal and exceptional exits (E4), and that a "
-      "shell's norm is computed from its stored parameters and never from the stale norm_cont (E5). Purity is compositional, so "
+      "shell's norm is computed from its stored parameters and never from the stale norm_cont (E5). Setters and initialisers may rebind fields of their own object but never write into an array the object already holds (it is the caller's); memoising decorators, closure and module-level caches are E3 findings. Purity is compositional, so "
       "these per-function facts hold for every call sequence - the quantifier the tests cannot reach. Structural clauses only: "
       "bit-for-bit repeatability additionally needs numpy's determinism, which is trusted.",
       "Trusted: the numpy/python API table (view vs copy, mutating methods) in gbsa/effects.py; caller-supplied callables "
@@ -24,7 +24,7 @@ claim("C18",
       "is s..k -> 0..7, consulted case-insensitively (P4); producers, the consumer loop and the shell constructor agree on "
       "(angmom, exps, coeffs) and SP column i goes with letter i (P5); shells are built atom-major with that atom's row and index "
       "(P6); each shell receives the next coordinate type in construction order (P7); coord_types is used through the Sequence "
-      "protocol only (P8); every line of a record's text is tried against the row pattern - complete split, non-matching lines skipped, never ending the loop (P9); from_pyscf unpacks the PySCF record layout; EFFECTS shows that none of the five import functions mutates "
+      "protocol only (P8); the shell keeps the atom index and angular momentum it is given - the scalar setters are decided by a finite case analysis over None / 0 / positive / negative / non-integral / string arguments, and __init__ hands each argument to its own property (STORE); every line of a record's text is tried against the row pattern - complete split, non-matching lines skipped, never ending the loop (P9); from_pyscf unpacks the PySCF record layout; EFFECTS shows that none of the five import functions mutates "
       "an argument. These hold for all inputs because they are facts about the patterns and the dataflow, not about sampled files. "
       "Round-trip of arbitrary generated files is not decided.",
       "Trusted: python re semantics, the NWChem/Gaussian94/PySCF format facts stated in the evidence assumptions, EFFECTS API table.",
@@ -108,7 +108,7 @@ claim("C06",
       "= Leibniz expansion for all 125 order triples with components 0..4 (decides the l_x shortcut and its factor 1/2), orders "
       "above 2 routed to the general back-end for BOTH order vectors; orbital arrays have object identity, so in-place writes (`x *= ..`, `out=x`) are seen through every alias. The two threshold checks raise exactly when some value is negative with magnitude above the threshold - the checking code touches values only through comparisons, abs, selections and min/max, so it is decided by enumerating every ordering of up to three values against 0 and +-threshold "
       "(finite-orderings argument) and otherwise return clip(min=0) of the checked array (scaled by 1/2 for "
-      "the KED); transform/deriv_type are forwarded at all internal call sites. 'To rounding error' and non-negativity for PSD "
+      "the KED); transform/deriv_type are forwarded at all internal call sites. Values that went through a non-linear operation (a clipping routine, clip/abs/maximum, an orbital selection derived from the density matrix) are marked and equal no defining sum, except the clipped t+ inside the general kinetic-energy density; result buffers must not take their dtype from the points (PITFALL). 'To rounding error' and non-negativity for PSD "
       "matrices are numerical and not decided; orders bounded at 4 per axis for the Leibniz rule.",
       "Trusted: evaluate_basis/evaluate_deriv_basis return orbital values/derivatives with axes (orbitals, points) (C05); "
       "G(p,q)=G(q,p) for symmetric P; sympy.",
@@ -209,7 +209,9 @@ claim("C12",
       "made generic, each pass using a single component): mutual consistency rather than conformance, so this check fires only when "
       "covariance under axis permutations itself is broken. The separable kernels never single out a component; the literal order tables of "
       "kinetic energy, momentum, density gradient and Laplacian are closed/equivariant under the six coordinate permutations; both "
-      "evaluation back-ends depend on point minus centre only; the angular momentum's moments are about the literal origin. Reflections, "
+      "evaluation back-ends depend on point minus centre only; the angular momentum's moments are about the literal origin; no approximate "
+      "comparison of centres (np.isclose/np.allclose, whose relative tolerance scales with the distance from the origin) selects between formulas; "
+      "data-dependent scalar branches inside kernels are explored both ways. Reflections, "
       "general rotations, the representation matrices of spherical shells and all numerical equalities are not decided.",
       _KERNEL_NOTE, "DESIGN.md 2.2, 3 (C12)")
 
@@ -219,7 +221,7 @@ claim("C13",
       "matrix exactly once, inside the contraction over that shell's own primitive axis with exponent-only factors, and the segment axis of "
       "each shell is the free index directly before its component axis: blocks are multilinear in the coefficients and a generalized shell "
       "is the union of its columns in order. No primitive axis is ever indexed, sliced or partially reduced (events logged by the "
-      "evaluator), the screening uses exponents through min() only, the evaluation back-ends use the coefficients once in "
+      "evaluator; a boolean selection of primitives is accepted only when it drops primitives whose coefficients are all zero; no unbuffered accumulation through np.unique's inverse), the screening uses exponents through min() only, the evaluation back-ends use the coefficients once in "
       "tensordot(...,(0,0)) and only broadcast the exponents: invariance under reordering and splitting primitives. The contraction norm "
       "is exactly the -1/2 power of the shell's own overlap diagonal, decided on the value finally stored (degree-0 homogeneity in each column); assembly applies it once per index "
       "before the spherical transform and flattens segment-major. Scale invariance over 12 orders of magnitude as a floating-point "
